@@ -34,6 +34,8 @@ enum Want {
     Lock(usize),
     CvWait(usize, usize, bool),
     Join,
+    // the event loop is blocked until the poll-waker fires (or nobody else is left to fire it)
+    WaitNotified,
     Done,
 }
 
@@ -91,6 +93,11 @@ impl St {
                 .iter()
                 .enumerate()
                 .all(|(i, w)| i == t || *w == Want::Done),
+            Want::WaitNotified => {
+                // wakes when notified, or (timeout) when no other thread can make a step
+                NOTIFIED.load(Ordering::SeqCst)
+                    || (0..self.th.len()).all(|i| i == t || self.th[i] == Want::WaitNotified || !self.enabled(i))
+            }
             Want::Run | Want::Done => false,
         }
     }
@@ -562,7 +569,11 @@ fn do_poll(sched: &Arc<Sched>, ms: &mut MainState, force: bool) -> bool {
 
 fn main_op(sched: &Arc<Sched>, sh: &Arc<Shared>, ms: &mut MainState, op: &Value) {
     let name = op[0].as_str().unwrap();
-    sched.yield_want(Want::Step);
+    if name == "poll" {
+        sched.yield_want(Want::WaitNotified);
+    } else {
+        sched.yield_want(Want::Step);
+    }
     match name {
         "poll" => {
             do_poll(sched, ms, false);
